@@ -260,8 +260,19 @@ func (g *gen) val(depth int, top bool) Val {
 	case x < 78 && top:
 		// a reflect.Value operand (direct operands only: inside a container
 		// a reflect.Value prints its own internals, addresses included)
-		if g.chance(0.5) {
+		switch g.r.Intn(8) {
+		case 0, 1, 2:
 			return Val{K: "rv", V: []Val{g.simple2()}}
+		case 3:
+			// a reflect.Value holding a value the library treats specially
+			k := g.pick(safeKinds)
+			return Val{K: "rv", V: []Val{{K: k, I: int64(g.r.Intn(300)), S: Str(g.payload())}}}
+		case 4:
+			return Val{K: "rv", V: []Val{{K: g.pick([]string{"safe", "unsafe"}), V: []Val{g.simple()}}}}
+		case 5:
+			return Val{K: "rvzero"}
+		case 6:
+			return Val{K: "rvunexp", V: []Val{{K: g.pick([]string{"goerr", "int", "str", "nil"}), ID: g.id(), S: Str(g.payload()), I: 5}}}
 		}
 		return Val{K: "rv", V: []Val{g.scripted(g.pick(scriptedList), depth+1)}}
 	default:
@@ -447,6 +458,12 @@ func (g *gen) format(args []Val) string {
 		sb.WriteString("%")
 	case 9:
 		sb.WriteString("%.*s")
+	case 10:
+		// argument indexes that do not parse
+		sb.WriteString(g.pick([]string{"%[", "%[1", "%[]d", "%[x]d", "%[-1]d", "%[1]", "%[2]*[1]d", "%[1]*d", "%[0]v", "%[99999999999999999999]d", "%.[1]*f", "%[1]"}))
+		if g.chance(0.5) {
+			sb.WriteString(g.lit())
+		}
 	}
 	return sb.String()
 }
